@@ -272,12 +272,9 @@ class LetExpression(TypedExpression):
             [layer for layer in list(value_state.stack) if layer.get("scope")]
         )
         if not self.local_variables:
+            # A binding-less wrapper is elided: the body keeps its own scope layers.
             return self.value.model_copy(
-                update={
-                    "before": body_before,
-                    "after": body_after,
-                    "scope_state": ScopeState(stack=scope_stack),
-                }
+                update={"before": body_before, "after": body_after}
             )
         return self.value.model_copy(
             update={
